@@ -1199,10 +1199,14 @@ pub fn redo_of_walker_pages(out: &mut Sink, r: &mut Rng, dir: &str, pages: &[Fre
                 out.fail(format!("C03 {what}: after recovery the elided-children field of page {} is not the walker's", hex(&p.pid.encode())));
             }
             let mut stale = 0u64;
+            let mut lost = 0usize;
             for s in 0..126 {
                 let same = pg[s * 32..s * 32 + 32] == p.nodes[s];
                 if p.meaningful.contains(&s) {
                     if !same {
+                        lost += 1;
+                    }
+                    if !same && lost == 1 {
                         out.fail(format!(
                             "C16 {what}: after WAL redo the meaningful slot {s} of page {} (fresh bucket {b}) holds {} — the walker's node is {} (diff names it: {})",
                             hex(&p.pid.encode()),
@@ -1216,6 +1220,7 @@ pub fn redo_of_walker_pages(out: &mut Sink, r: &mut Rng, dir: &str, pages: &[Fre
                     stale += 1;
                 }
             }
+            out.add("walker_redo_meaningful_slots_lost", lost as u64);
             out.add("walker_redo_stale_bytes_in_unread_slots", stale);
             out.count(if variant == 0 { "walker_redo_pages_checked" } else { "walker_redo_pages_checked_partial_writeout" });
         }
